@@ -49,6 +49,9 @@ def vectors(ctx):
                             f = gen.set_bits(f, 32 + st, 32 + st, stv)
                         if sg:
                             f = gen.set_bits(f, 32 + sg, 32 + sg, sgv)
+                        if (x + fill + stv) % 9 == 0:
+                            # reply from a boundary address: the AP field equals the plain parity (000000) / its complement
+                            f = gen.with_parity(f[:11], rng.choice([0, 0xFFFFFF]))
                         V.append({"fn": "commb." + name, "frame": f, "case": [name, x, stv, sgv, fill]})
     # cap17: every single capability bit, pairs, random
     for k in range(24):
